@@ -1,6 +1,7 @@
 import NTV.Model.PolyZ
 import NTV.Proofs.C09
 import NTV.Proofs.C10
+import NTV.Proofs.Lemmas.PolyZProofs4
 /-! # C07 — factorisation over ℤ: what is proved so far.
 Irreducibility of the returned factors and completeness of the product rest on Mignotte's bound, Hensel
 uniqueness and Cantor–Zassenhaus; they are certified on every explored case by an independent oracle
@@ -38,5 +39,220 @@ theorem zero_and_constants (c : Int) (hc : c ≠ 0) (s : NTV.Draw.Stream) :
       · simp only [h, ↓reduceIte]; omega
       · simp only [h, ↓reduceIte]; omega
     simp [NTV.PolyZ.factorize, degU, pure, Except.pure, hcont]
+
+/-! ## What the structure of `factorize` guarantees
+for every input, every draw stream and whatever the modular stage (prime search, factorisation modulo p,
+Hensel lifting) returned: only the exact trial divisions, the content split and the order of the loops
+are used. Irreducibility of the returned factors (Mignotte bound, Hensel uniqueness, exhaustive
+recombination) is *not* proved; theorems that need it take it as an explicit hypothesis.
+
+`GcdExact a` is the exactness flag of the subresultant gcd of pp(a) and pp(a)' (the hypothesis of the C10
+theorems; `factorize` discards the flag). Without it the value used as gcd is an arbitrary exact divisor
+of pp(a), and the leading-coefficient sign of the last factor, `e ≥ 1`, distinctness and true
+multiplicities are not determined by the structure alone. -/
+open NTV.PolyZ
+
+/-- **Product identity, unconditional form** (partial: the cofactor `r` left by the multiplicity loop is
+not shown to be 1 — that needs the returned factors to be irreducible, see
+`product_identity_irreducible_partial`; with a reducible factor f = p·q and a = p²·q the loop leaves
+r = p). For every non-zero canonical `a` and every successful run:
+`c · r · ∏ fᵢ^eᵢ = a` and `c · q · ∏ fᵢ = a` for some `r, q ∈ ℤ[X]` (the listed polynomials multiply to an
+exact divisor of the primitive part: every accepted candidate passed an exact division and the last
+cofactor is appended), and each `eᵢ` is maximal for the cofactor the loop had reached:
+`fᵢ ∤ r · ∏_{j>i} fⱼ^eⱼ`. -/
+theorem product_identity_partial (a : List Int) (s : NTV.Draw.Stream) (c : Int) (fs : List (List Int × Nat))
+    (ha : a ≠ []) (hca : Canon a) (h : factorize a s = .ok (c, fs)) :
+    ∃ r q : ℤ[X],
+      C c * (r * (fs.map fun fe => toPoly fe.1 ^ fe.2).prod) = toPoly a ∧
+      C c * (q * (fs.map fun fe => toPoly fe.1).prod) = toPoly a ∧
+      ∀ l1 f e l2, fs = l1 ++ (f, e) :: l2 → ¬ toPoly f ∣ r * (l2.map fun fe => toPoly fe.1 ^ fe.2).prod := by
+  obtain ⟨s1, _, _, _⟩ := NTV.PolyG.contPP_spec a ha hca
+  have hl : a.length = 1 ∨ 2 ≤ a.length := by
+    have := List.length_pos_of_ne_nil ha; omega
+  rcases hl with hl | hl
+  · obtain ⟨rfl, rfl, h1⟩ := factorize_const a s c fs hca hl h
+    refine ⟨1, 1, by simpa [h1] using s1, by simpa [h1] using s1, ?_⟩
+    intro l1 f e l2 hs; simp at hs
+  · obtain ⟨g, sq, r, R⟩ := factorize_run a s c fs hca hl h
+    obtain ⟨q, hq⟩ := R.sq_dvd
+    refine ⟨toPoly r, q, ?_, ?_, R.hmax⟩
+    · rw [R.hc, ← s1, R.hprod]; rfl
+    · rw [R.hc, ← s1, hq, R.hprod_sq, List.map_map, mul_comm q]; rfl
+
+/-- **Shape of the output** (unconditional part): `c` is the signed content — non-zero, with the sign of
+the leading coefficient of `a`, of absolute value the content of `a` — and every returned `f` is
+canonical, non-constant, primitive and divides `a`. (A constant factor ±1 would make the multiplicity
+loop spin: the run is then not `.ok`.) -/
+theorem factor_shape (a : List Int) (s : NTV.Draw.Stream) (c : Int) (fs : List (List Int × Nat))
+    (ha : a ≠ []) (hca : Canon a) (h : factorize a s = .ok (c, fs)) :
+    c ≠ 0 ∧ (0 < c ↔ 0 < lc a) ∧ (toPoly a).content = |c| ∧
+    ∀ fe ∈ fs, Canon fe.1 ∧ 2 ≤ fe.1.length ∧ (toPoly fe.1).IsPrimitive ∧ toPoly fe.1 ∣ toPoly a := by
+  obtain ⟨s1, _, _, _⟩ := NTV.PolyG.contPP_spec a ha hca
+  obtain ⟨c1, c2, c3⟩ := content_facts ha hca
+  have hl : a.length = 1 ∨ 2 ≤ a.length := by
+    have := List.length_pos_of_ne_nil ha; omega
+  rcases hl with hl | hl
+  · obtain ⟨rfl, rfl, _⟩ := factorize_const a s c fs hca hl h
+    exact ⟨c1, c2, c3, by simp⟩
+  · obtain ⟨g, sq, r, R⟩ := factorize_run a s c fs hca hl h
+    rw [R.hc]
+    refine ⟨c1, c2, c3, ?_⟩
+    rintro ⟨f, e⟩ hfe
+    obtain ⟨h1, h2, h3, h4⟩ := R.factor_shape ha hca hfe
+    exact ⟨h1, h2, h3, by rw [← s1]; exact Dvd.dvd.mul_left h4 _⟩
+
+/-- **Shape of the output**, the part that depends on the gcd routine (partial: under the exactness flag
+`GcdExact a` of the C10 theorems): every returned `f` has a positive leading coefficient and every
+exponent is at least 1. -/
+theorem factor_shape_exact_partial (a : List Int) (s : NTV.Draw.Stream) (c : Int) (fs : List (List Int × Nat))
+    (ha : a ≠ []) (hca : Canon a) (hx : GcdExact a) (h : factorize a s = .ok (c, fs)) :
+    ∀ fe ∈ fs, 0 < lc fe.1 ∧ 1 ≤ fe.2 := by
+  have hl : a.length = 1 ∨ 2 ≤ a.length := by
+    have := List.length_pos_of_ne_nil ha; omega
+  rcases hl with hl | hl
+  · obtain ⟨rfl, rfl, _⟩ := factorize_const a s c fs hca hl h
+    simp
+  · obtain ⟨g, sq, r, R⟩ := factorize_run a s c fs hca hl h
+    obtain ⟨_, p2, _, _, _⟩ := pp_facts ha hca
+    rintro ⟨f, e⟩ hfe
+    refine ⟨(R.hfac _ hfe).2.2 (R.exact ha hca hl hx).2.1, ?_⟩
+    exact R.book.exponent_pos (R.pairwise ha hca hl hx) p2 (mem_entries hfe) (R.factor_dvd hfe)
+
+theorem isPrimitive_pow {p : ℤ[X]} (hp : p.IsPrimitive) : ∀ n : Nat, (p ^ n).IsPrimitive
+  | 0 => by simp
+  | n + 1 => by rw [pow_succ]; exact (isPrimitive_pow hp n).mul hp
+
+/-- **True multiplicities**, given pairwise coprime factors (partial: coprimality — which follows from
+irreducibility and distinctness, or from `GcdExact`, see `multiplicity_true_partial` — is a hypothesis):
+`fᵢ^eᵢ ∣ a` and `fᵢ^(eᵢ+1) ∤ a` in ℤ[X], for exponents of any size. -/
+theorem multiplicity_true_coprime_partial (a : List Int) (s : NTV.Draw.Stream) (c : Int)
+    (fs : List (List Int × Nat)) (ha : a ≠ []) (hca : Canon a) (h : factorize a s = .ok (c, fs))
+    (hcop : (fs.map fun fe => toPoly fe.1).Pairwise IsRelPrime) :
+    ∀ fe ∈ fs, toPoly fe.1 ^ fe.2 ∣ toPoly a ∧ ¬ toPoly fe.1 ^ (fe.2 + 1) ∣ toPoly a := by
+  have hl : a.length = 1 ∨ 2 ≤ a.length := by
+    have := List.length_pos_of_ne_nil ha; omega
+  rcases hl with hl | hl
+  · obtain ⟨rfl, rfl, _⟩ := factorize_const a s c fs hca hl h
+    simp
+  · obtain ⟨g, sq, r, R⟩ := factorize_run a s c fs hca hl h
+    obtain ⟨s1, _, _, _⟩ := NTV.PolyG.contPP_spec a ha hca
+    obtain ⟨_, p2, _, _, p5⟩ := pp_facts ha hca
+    have hcop' : ((entries fs).map Prod.fst).Pairwise IsRelPrime := by
+      rw [map_fst_entries, List.map_map]; exact hcop
+    rintro ⟨f, e⟩ hfe
+    obtain ⟨m1, m2⟩ := R.book.true_multiplicity hcop' p2 (mem_entries hfe)
+    refine ⟨by rw [← s1]; exact Dvd.dvd.mul_left m1 _, ?_⟩
+    intro hd
+    apply m2
+    have hprim := isPrimitive_pow (R.factor_shape ha hca hfe).2.2.1 (e + 1)
+    exact NTV.Res.dvd_of_divC hprim ⟨(contPP a).1, p5, by rw [s1]; exact hd⟩
+
+/-- **Pairwise distinct, pairwise coprime** (partial: under the exactness flag `GcdExact a`): the
+product of the returned polynomials is pp(a) / gcd(pp(a), pp(a)'), which is squarefree; hence they are
+pairwise coprime in ℤ[X] and, being non-constant, pairwise distinct. -/
+theorem distinct_partial (a : List Int) (s : NTV.Draw.Stream) (c : Int) (fs : List (List Int × Nat))
+    (ha : a ≠ []) (hca : Canon a) (hx : GcdExact a) (h : factorize a s = .ok (c, fs)) :
+    (fs.map Prod.fst).Nodup ∧ (fs.map fun fe => toPoly fe.1).Pairwise IsRelPrime ∧
+    Squarefree (fs.map fun fe => toPoly fe.1).prod := by
+  have hl : a.length = 1 ∨ 2 ≤ a.length := by
+    have := List.length_pos_of_ne_nil ha; omega
+  rcases hl with hl | hl
+  · obtain ⟨rfl, rfl, _⟩ := factorize_const a s c fs hca hl h
+    simp
+  · obtain ⟨g, sq, r, R⟩ := factorize_run a s c fs hca hl h
+    have hp := R.pairwise ha hca hl hx
+    have hn := R.book.nodup hp
+    rw [map_fst_entries] at hp hn
+    refine ⟨hn.of_map _, by rw [List.map_map] at hp; exact hp, ?_⟩
+    have := (R.exact ha hca hl hx).1
+    rw [R.hprod_sq, List.map_map] at this
+    exact this
+
+/-- **True multiplicities** (partial: under the exactness flag `GcdExact a`; no irreducibility needed):
+each returned exponent is the exact multiplicity of its factor in `a`. -/
+theorem multiplicity_true_partial (a : List Int) (s : NTV.Draw.Stream) (c : Int)
+    (fs : List (List Int × Nat)) (ha : a ≠ []) (hca : Canon a) (hx : GcdExact a)
+    (h : factorize a s = .ok (c, fs)) :
+    ∀ fe ∈ fs, toPoly fe.1 ^ fe.2 ∣ toPoly a ∧ ¬ toPoly fe.1 ^ (fe.2 + 1) ∣ toPoly a :=
+  multiplicity_true_coprime_partial a s c fs ha hca h (distinct_partial a s c fs ha hca hx h).2.1
+
+/-- **Product identity** (partial: irreducibility of the returned factors — out of scope here — and the
+exactness flag are hypotheses). If every returned factor is irreducible then nothing is left over:
+`c · ∏ fᵢ^eᵢ = a` exactly in ℤ[X]. (Every irreducible factor of pp(a) divides
+pp(a)/gcd(pp(a), pp(a)') = ∏ fᵢ, hence is associated to some fᵢ, which the multiplicity loop divided out
+completely.) -/
+theorem product_identity_irreducible_partial (a : List Int) (s : NTV.Draw.Stream) (c : Int)
+    (fs : List (List Int × Nat)) (ha : a ≠ []) (hca : Canon a) (hx : GcdExact a)
+    (hirr : ∀ fe ∈ fs, Irreducible (toPoly fe.1)) (h : factorize a s = .ok (c, fs)) :
+    C c * (fs.map fun fe => toPoly fe.1 ^ fe.2).prod = toPoly a := by
+  obtain ⟨s1, _, _, _⟩ := NTV.PolyG.contPP_spec a ha hca
+  have hl : a.length = 1 ∨ 2 ≤ a.length := by
+    have := List.length_pos_of_ne_nil ha; omega
+  rcases hl with hl | hl
+  · obtain ⟨rfl, rfl, h1⟩ := factorize_const a s c fs hca hl h
+    simpa [h1] using s1
+  · obtain ⟨g, sq, r, R⟩ := factorize_run a s c fs hca hl h
+    have h1 := R.cofactor_one ha hca hl hx hirr
+    rw [R.hc, ← s1, R.hprod, h1, one_mul]; rfl
+
+/-! ### non-vacuity: concrete runs satisfying the hypotheses -/
+
+/-- a complete run of the model on 2·(x+1)²·(x²+x−1), consuming a draw stream: content 2, a double
+factor, two factors (kernel-checked evaluation of the whole routine) -/
+theorem run_example : factorize [-2, -2, 4, 6, 2] [[3, 0, 0, 0], [1, 0, 0, 0], [2, 0, 0, 0], [3, 0, 0, 0]]
+    = .ok (2, [([1, 1], 2), ([-1, 1, 1], 1)]) := by decide +kernel
+
+theorem canon_example : Canon ([-2, -2, 4, 6, 2] : List Int) := by intro h; simp
+
+/-- the exactness flag holds on that input -/
+theorem gcdExact_example : GcdExact [-2, -2, 4, 6, 2] := by
+  intro g ok h
+  have h1 : contPP [-2, -2, 4, 6, 2] = (2, [-1, -1, 2, 3, 1]) := by decide +kernel
+  have h2 : NTV.Res.resultantSmartGcdE [-1, -1, 2, 3, 1] (differential [-1, -1, 2, 3, 1])
+      = some (.ok ([1, 1], true)) := by decide +kernel
+  rw [h1] at h
+  simp only at h
+  rw [h2] at h
+  simp only [Option.some.injEq, Except.ok.injEq, Prod.mk.injEq] at h
+  exact h.2.symm
+
+example := product_identity_partial _ _ _ _ (by simp) canon_example run_example
+example := factor_shape _ _ _ _ (by simp) canon_example run_example
+example := factor_shape_exact_partial _ _ _ _ (by simp) canon_example gcdExact_example run_example
+example := multiplicity_true_partial _ _ _ _ (by simp) canon_example gcdExact_example run_example
+example := distinct_partial _ _ _ _ (by simp) canon_example gcdExact_example run_example
+example := multiplicity_true_coprime_partial _ _ _ _ (by simp) canon_example run_example
+  (distinct_partial _ _ _ _ (by simp) canon_example gcdExact_example run_example).2.1
+
+/-- (x+1)²: here the returned factor is provably irreducible, so the full identity applies -/
+theorem run_example₂ : factorize [1, 2, 1] [] = .ok (1, [([1, 1], 2)]) := by decide +kernel
+
+theorem gcdExact_example₂ : GcdExact [1, 2, 1] := by
+  intro g ok h
+  have h1 : contPP [1, 2, 1] = (1, [1, 2, 1]) := by decide +kernel
+  have h2 : NTV.Res.resultantSmartGcdE [1, 2, 1] (differential [1, 2, 1]) = some (.ok ([1, 1], true)) := by
+    decide +kernel
+  rw [h1] at h
+  simp only at h
+  rw [h2] at h
+  simp only [Option.some.injEq, Except.ok.injEq, Prod.mk.injEq] at h
+  exact h.2.symm
+
+example : C (1 : ℤ) * ([([1, 1], 2)].map fun fe : List Int × Nat => toPoly fe.1 ^ fe.2).prod = toPoly [1, 2, 1] := by
+  refine product_identity_irreducible_partial [1, 2, 1] [] 1 _ (by simp) (by intro h; simp) gcdExact_example₂ ?_
+    run_example₂
+  intro fe hfe
+  simp only [List.mem_singleton] at hfe
+  subst hfe
+  have : toPoly ([1, 1] : List Int) = X - C (-1) := by simp [toPoly]; ring
+  rw [this]
+  exact irreducible_X_sub_C _
+
+/-- why the leftover cofactor cannot be removed from `product_identity_partial` by the loop structure
+alone: fed the reducible "factor" (x+1)(x+2), the multiplicity loop on (x+1)²(x+2) records exponent 1
+and leaves x+1 behind. In `factorize` this is excluded only by the irreducibility of what the
+recombination returns. -/
+example : multiplicities [[2, 3, 1]] [2, 5, 4, 1] [] = .ok [([2, 3, 1], 1)] ∧
+    multiplicity [2, 3, 1] 6 [2, 5, 4, 1] 0 = .ok ([1, 1], 1) := by decide +kernel
 
 end NTV.C07
